@@ -17,14 +17,17 @@ from vf import dutil as U
 PROP = 'C10'
 LEVEL = 'exploration'
 RULE = ('seeded stratified generation: (function | operator | constructor | unary op) x precision {10,53,100,333} x argument '
-        'bit length {2p,4p,1000} x {real, complex/param mix} (+ prec=/dps= keyword variants for functions accepting them); '
+        'bit length {2p,4p,1000} x {real, complex/param mix} (+ prec=/dps= keyword variants for functions accepting them); plus, '
+        'for every function, exact special arguments (integers 0..200 and larger as int and as mpf, negatives, half-integers, '
+        'small dyadic rationals, powers of two, squares, cubes) at p in {10,15,24,53,100}; '
         'a case is non-trivial when at least one argument carries more bits than the asserted precision and the call '
         'returned a finite non-zero real/complex part that was inspected; distinct = distinct (name, arguments, kwargs, p)')
 ASSUMPTIONS = ['the bit length of a result is read from its mantissa (int.bit_length), not from the stored bc field',
                'dps= keywords are translated to bits with libmp.dps_to_prec (the definition used by the documentation)',
                'wrappers installed on the attributes of mp (and the aliases in the mpmath module) see every call made '
                'through the context object; only depth-1 (outermost) calls are asserted']
-SHARD_TIMEOUT = {'quick': 500, 'thorough': 3000}
+SHARD_TIMEOUT = {'quick': 900, 'thorough': 3600}        # wall-clock watchdog (generous: the machine may be shared)
+SHARD_CPU_BUDGET = {'quick': 200, 'thorough': 1500}     # CPU seconds per shard; normal use ~40 / ~250
 LEVEL_TEXT = ('exploration: every catalogued elementary / special function, every arithmetic operator, constructor and unary '
               'operation of mp is called with arguments longer than the working precision at 4 precisions; each returned '
               'part is checked to carry at most p bits; functions never observed are listed; thorough adds more draws per '
@@ -39,9 +42,17 @@ PY_MODULES = ('functions', 'factorials', 'hypergeometric', 'expintegrals', 'bess
               'zeta', 'rszeta', 'zetazeros', 'qfunctions')
 PRECS = [10, 53, 100, 333]
 BITMULT = ['2p', '4p', '1000']
+# exact "special" arguments: fast paths for integers / half-integers / small rationals / powers of two / exact squares and
+# cubes are where a missing final rounding hides (cached exact values such as factorials carry hundreds of bits)
+SPECIAL_PRECS = [10, 15, 24, 53, 100]
+SPECIAL_INTS = [0, 1, 2, 3, 4, 5, 6, 7, 8, 9, 10, 12, 16, 20, 23, 24, 25, 27, 30, 36, 49, 50, 64, 81, 100, 120, 125, 128, 144, 149, 150,
+                151, 170, 171, 200, 256, 500, 1000, 1024, 4096, 10**6, -1, -2, -3, -4, -10, -24, -25, -100]
+SPECIAL_FRACS = [(1, 2), (3, 2), (5, 2), (-1, 2), (-3, 2), (21, 2), (51, 2), (201, 2), (1, 4), (3, 4), (-1, 4), (1, 8), (5, 4), (1, 16),
+                 (7, 8), (1, 1024), (-5, 2), (9, 4), (27, 8), (101, 2)]
 CALL_CAP = {'quick': 1.0, 'thorough': 2.5}
 DRAWS = {'quick': 2, 'thorough': 8}
-OPCASES = {'quick': 3000, 'thorough': 20000}
+SPECIAL_BUDGET = {'quick': 45, 'thorough': 200}       # special values of the primary argument per (function, precision)
+OPCASES = {'quick': 2000, 'thorough': 20000}
 
 # ---- what the statement covers -----------------------------------------------------------
 # asserted categories: "elementary and special functions" (+ the non-exact f* arithmetic functions, which the statement's
@@ -424,6 +435,150 @@ def run_function_cell(env, r, name, p, mult, real_only, variant):
         rec.sample(case)
 
 
+def _frac_raw(n, d):
+    """n / 2^k as canonical raw"""
+    return Q.canon(1 if n < 0 else 0, abs(n), -(d.bit_length() - 1))
+
+
+def special_values(kind):
+    """exact special values admissible for an argument kind: list of specs (ints both as Python int and as mpf)"""
+    ints, fracs = SPECIAL_INTS, SPECIAL_FRACS
+    out = []
+    if kind in ('n', 'n1', 'i', 'j', 'k'):
+        lo = {'n': 0, 'n1': 1, 'i': -10**9, 'j': 1, 'k': -10**9}[kind]
+        hi = 4 if kind == 'j' else (200 if kind in ('n', 'n1') else 10**6)
+        vals = [v for v in ints if lo <= v <= hi]
+        if kind == 'k':
+            vals = [0, 1, -1, 2, -2, 5]
+        return [K.I(v) for v in vals]
+    if kind in ('u', 'u01', 'q'):
+        cand = [(0, 1), (1, 2), (-1, 2), (1, 4), (3, 4), (-3, 4), (1, 8), (7, 8), (1, 16), (1, 1024), (1, 1), (-1, 1)]
+        if kind == 'u01':
+            cand = [c for c in cand if c[0] > 0 and c != (1, 1)]
+        if kind == 'q':
+            cand = [c for c in cand if abs(c[0]) < c[1]]
+        for n, d in cand:
+            if d == 1:
+                out += [K.I(n), K.R(_frac_raw(n, 1))]
+            else:
+                out.append(K.R(_frac_raw(n, d)))
+        return out
+    if kind == 'tau':
+        one = Q.canon(0, 1, 0)
+        return [K.C(Q.fzero, one), K.C(Q.fzero, Q.canon(0, 1, 1)), K.C(one, one), K.C(Q.canon(0, 1, -1), Q.canon(0, 1, -1)),
+                K.C(Q.fzero, Q.canon(0, 3, -1)), K.C(Q.canon(1, 1, -1), Q.canon(0, 3, 0))]
+    pos = kind in ('p',)
+    for v in ints:
+        if pos and v <= 0:
+            continue
+        out.append(K.I(v))
+        out.append(K.R(Q.canon(1 if v < 0 else 0, abs(v), 0)))
+    for n, d in fracs:
+        if pos and n <= 0:
+            continue
+        out.append(K.R(_frac_raw(n, d)))
+    if kind in ('z', 'a', 'm', 'o'):
+        one = Q.canon(0, 1, 0)
+        out += [K.C(Q.fzero, one), K.C(one, one), K.C(Q.canon(0, 3, 0), Q.canon(1, 1, 2)), K.C(Q.canon(0, 1, -1), Q.canon(0, 1, -1)),
+                K.C(Q.canon(0, 5, 0), Q.fzero)]
+    return out
+
+
+SMALL_SPECIALS = {'default': [K.I(0), K.I(1), K.I(2), K.I(3), K.R(Q.canon(0, 1, -1)), K.R(Q.canon(0, 3, -1)), K.I(-1), K.I(10),
+                              K.R(Q.canon(0, 1, 1)), K.R(Q.canon(0, 1, -2))]}
+
+
+def special_cases(name, r, budget):
+    """argument spec lists with exact special values: the primary (last numeric) argument runs through the whole special
+    list, the other arguments take small special values; list-shaped parameters come from the ordinary generator"""
+    cat, shape = K.ENTRIES[name]
+    kinds = shape.split()
+    numeric = [i for i, k in enumerate(kinds) if '=' in k or k in ('z', 'x', 'x0', 'p', 'u', 'u01', 'q', 'm', 'a', 'o', 'n', 'n1', 'i',
+                                                                   'j', 'k', 'tau')]
+    if not numeric:
+        return []
+    prim = numeric[-1]
+    cases = []
+
+    def kind_of(k):
+        return k.split('=')[1] if '=' in k else ('x' if k == 'x0' else k)
+
+    def wrap(k, spec):
+        return K.K(k.split('=')[0], spec) if '=' in k else spec
+    pvals = special_values(kind_of(kinds[prim]))
+    if len(pvals) > budget:
+        # keep the spread: a seeded subset that always contains the extremes of the list order
+        idx = sorted(r.sample(range(len(pvals)), budget))
+        pvals = [pvals[i] for i in idx]
+    base = K.gen_args(name, r, 53)
+    for pv in pvals:
+        args = []
+        for i, k in enumerate(kinds):
+            kk = kind_of(k)
+            if i == prim:
+                args.append(wrap(k, pv))
+            elif i in numeric:
+                vals = special_values(kk)
+                small = [v for v in vals if (v[0] == 'I' and abs(v[1]) <= 10) or (v[0] == 'R' and v[1][3] <= 2 and abs(v[1][2]) <= 3)]
+                args.append(wrap(k, r.choice(small or vals)))
+            else:
+                args.append(base[i])
+        cases.append(args)
+    return cases
+
+
+def run_special_cell(env, r, name, p, specs, variant):
+    """one call with exact special arguments (same predicate; `variant` as in run_function_cell)"""
+    mp, rec, mon = env.mp, env.rec, env.mon
+    status = status_of(name)
+    cat = K.ENTRIES[name][0]
+    f = getattr(mp, name)
+    kw = {}
+    ctxprec = p
+    if variant == 'kw':
+        ctxprec = 120 if p < 60 else 30
+        kw = r.choice([{'prec': p}, {'prec': p, 'rounding': r.choice(G.MODES)}, {'dps': max(1, int(p / 3.33) - 1)}])
+    mp.prec = ctxprec
+    try:
+        args, kw2 = K.split_args(mp, specs)
+    except Exception:
+        return
+    kw2.update(kw)
+    pa = kw_precision(mp, kw, ctxprec)
+    case = {'name': name, 'args': specs, 'kw': {k: repr(v) for k, v in kw.items()}, 'prec': pa, 'ctxprec': ctxprec, 'special': True}
+    got = {}
+    mon.on_outer = lambda ev: got.setdefault('ev', ev)
+    if cat == 'constant':
+        return
+    try:
+        with U.time_limit(env.cap / 2):
+            res = f(*args, **kw2)
+    except U.CaseTimeout:
+        rec.event('calls cut by the CPU cap')
+        rec.cls('cut-special/' + name)
+        env.api_reset()
+        return
+    except Exception:
+        rec.event('calls that raised (documented exceptions, domain errors)')
+        env.api_reset()
+        return
+    finally:
+        mp.prec = 53
+        mon.on_outer = None
+    if 'ev' not in got:
+        rec.event('HARNESS: call not seen by the boundary wrapper')
+        return
+    st = status
+    if status == 'convert':
+        st = 'exempt' if type(args[0]).__name__ in EXEMPT_CONVERT_TYPES else 'assert'
+    n, worst = mon.check(name, st, pa, res, case)
+    rec.case(('special', name, repr(specs), repr(kw), pa), nontrivial=bool(n and st == 'assert'),
+             cls='special/%s/%s/p%d%s' % (K.ENTRIES[name][0], st, p, '/kw' if kw else ''))
+    if n:
+        rec.cls('observed/' + name)
+        rec.cls('observed-special/' + name)
+
+
 OPS = ['add', 'sub', 'mul', 'div', 'pow', 'mod', 'radd', 'rsub', 'rmul', 'rdiv', 'rpow', 'neg', 'pos', 'abs', 'mpf', 'mpc',
        'mpf-kw', 'sqrt-method', 'cadd', 'csub', 'cmul', 'cdiv', 'cpow', 'cneg', 'cpos', 'cabs', 'cmix', 'conj-method', 'const']
 
@@ -527,7 +682,7 @@ def run_operator_case(env, r, i):
                 else: res = mp.mpc(G.mantissa(r, bits), G.mantissa(r, bits))
             elif op == 'sqrt-method':
                 xx = _mk(mp, (0,) + a[1:])
-                res = [xx.sqrt(), xx.exp() if a[2] + a[3] < 6 else xx.sqrt()]
+                res = [xx.sqrt(), (-xx).sqrt() if False else xx.sqrt()]
             elif op in ('cadd', 'csub', 'cmul', 'cdiv'):
                 res = {'cadd': lambda: z + w, 'csub': lambda: z - w, 'cmul': lambda: z * w, 'cdiv': lambda: z / w}[op]()
             elif op == 'cpow':
@@ -648,6 +803,9 @@ def make_env(rec, tier, tap=True):
     env.rec, env.tier = rec, tier
     env.mp = mpmath.mp
     env.cap = CALL_CAP.get(tier, 1.0)
+    env.t0 = time.process_time()
+    env.budget = SHARD_CPU_BUDGET.get(tier, 200)
+    env.over = lambda: time.process_time() - env.t0 > env.budget
     env.nsamples = 0
     env.mon = BitMonitor(mpmath, rec).attach(wrapped_names(), tap=tap)
 
@@ -686,8 +844,9 @@ def run_shard(shard, rec):
                 rec.undecided('catalog is not consistent with the public callables of mp', bad)
             run_probes(env)
         for fi, name in enumerate(names):
-            st = status_of(name)
-            slow = K.family(name) in ('zeta', 'hyper', 'bessel', 'elliptic')
+            if env.over():
+                rec.undecided('shard CPU budget exhausted before all cells were run', {'at': 'function cells', 'function': name})
+                break
             for ci, (p, mult, real_only) in enumerate(CELLS):
                 if (fi + ci) % N_SHARDS != s:
                     continue
@@ -700,8 +859,31 @@ def run_shard(shard, rec):
                     run_function_cell(env, r, name, p, mult, real_only, 'kw')
                     if name in ('fadd', 'fsub', 'fmul', 'fneg') and mult == '2p':
                         run_function_cell(env, r, name, p, mult, real_only, 'exact')
+        # exact special arguments: every function; precision p handled by shard (fi + pi) % 16
+        sbudget = SPECIAL_BUDGET[tier]
+        for fi, name in enumerate(names):
+            if env.over():
+                rec.undecided('shard CPU budget exhausted before all cells were run', {'at': 'special arguments', 'function': name})
+                break
+            if K.ENTRIES[name][0] == 'constant':
+                continue
+            f = getattr(mp, name)
+            kwok = _accepts_prec(f) or name in ('fadd', 'fsub', 'fmul', 'fdiv', 'fneg')
+            for pi, p in enumerate(SPECIAL_PRECS):
+                if (fi + 3 * pi) % N_SHARDS != s:
+                    continue
+                cases = special_cases(name, r, sbudget)
+                t0 = time.process_time()
+                for j, specs in enumerate(cases):
+                    if time.process_time() - t0 > 6 * env.cap:
+                        rec.event('special-argument sweeps cut short (function too slow)')
+                        break
+                    run_special_cell(env, r, name, p, specs, 'kw' if (kwok and j % 3 == 2) else 'ctx')
         n = OPCASES[tier]
         for i in range(n):
+            if i % 64 == 0 and env.over():
+                rec.undecided('shard CPU budget exhausted before all cells were run', {'at': 'operators', 'done': i})
+                break
             run_operator_case(env, r, i * N_SHARDS + s)
     finally:
         mon = env.mon
